@@ -26,7 +26,7 @@ fn input_program(names: &[&str], edges: &[(usize, usize, &str)], one_of: &[bool]
     defs.push(TypeDef::Object { name: "Query".into(), implements: vec![], fields: vec![FieldDef::new("x", GType::named("Int"))] });
     let vars = names.iter().map(|n| VarDef { name: format!("v{}", n.to_lowercase()), ty: GType::named(n), default: None }).collect();
     Program {
-        schema: SchemaDoc { defs, schema_block: None },
+        schema: SchemaDoc { defs, schema_block: None , input_defaults: vec![] },
         doc: QueryDoc { defs: vec![QDef::Op { kind: OpKind::Query, name: Some("Q".into()), vars, sel: vec![Sel::field("x")] }] },
         opts: Opts { operation_name: Some("Q".into()), ..Opts::default() },
         tags: vec![],
@@ -52,6 +52,7 @@ fn frag_schema() -> SchemaDoc {
             TypeDef::Object { name: "Query".into(), implements: vec![], fields: vec![FieldDef::new("me", GType::named("Person")), FieldDef::new("pet", GType::named("Pet")), FieldDef::new("named", GType::named("Named"))] },
         ],
         schema_block: None,
+        input_defaults: vec![],
     }
 }
 
